@@ -148,6 +148,20 @@ def build_project(cells, dep5=False, dirs=("d", "e")):
                     oi = {"cop": [f"SPDX-FileCopyrightText: 2020 own-{g}{name}"] if own in ("cop", "both") else [],
                           "lic": [f"LicenseRef-own-{g}{name}"] if own in ("lic", "both") else [], "source": rel, "stype": "file-header"}
                 expected[f"{g}/{name}"] = (rel,) + A.attribute(oi, [lvl])
+    if not dep5:
+        # one root table shared by files that also have a nearer REUSE.toml supplying only one half: what the nearer
+        # file supersedes for one file must still be there for the next one
+        cop, lic = ["2004 shared-u"], ["LicenseRef-shared-u"]
+        tables[0].append(("u/**", "closest", cop, lic))
+        outer = {"prec": "closest", "cop": cop, "lic": lic, "source": "REUSE.toml", "stype": "reuse-toml"}
+        inner = {"in1": {"prec": "closest", "cop": ["2005 inner-one"], "lic": [], "source": "u/in1/REUSE.toml", "stype": "reuse-toml"},
+                 "in2": {"prec": "closest", "cop": [], "lic": ["LicenseRef-inner-two"], "source": "u/in2/REUSE.toml", "stype": "reuse-toml"}}
+        files["u/in1/REUSE.toml"] = "version = 1\n\n[[annotations]]\npath = '**'\nprecedence = 'closest'\nSPDX-FileCopyrightText = '2005 inner-one'\n"
+        files["u/in2/REUSE.toml"] = "version = 1\n\n[[annotations]]\npath = '**'\nprecedence = 'closest'\nSPDX-License-Identifier = 'LicenseRef-inner-two'\n"
+        for rel, chain in (("u/a0.txt", [outer]), ("u/in1/f.txt", [outer, inner["in1"]]), ("u/in2/f.txt", [outer, inner["in2"]]), ("u/m.txt", [outer]),
+                           ("u/in1/g.txt", [outer, inner["in1"]]), ("u/zz.txt", [outer]), ("u/zz/last.txt", [outer])):
+            files[rel] = "body\n"
+            expected["u:" + rel] = (rel,) + A.attribute(None, chain)
     if dep5:
         out = ["Format: https://www.debian.org/doc/packaging-manuals/copyright-format/1.0/", "Upstream-Name: x", ""]
         for path, cop, lic in dep5_paras:
